@@ -1,4 +1,4 @@
-import Cjet.Lemmas.HoptableRun
+import Cjet.Lemmas.HoptableSweep
 
 /-!
 # C17 — the hopscotch hash tables behave as exact finite maps
@@ -18,13 +18,27 @@ open Cjet Cjet.Hoptable
 section
 variable {K V : Type} [DecidableEq K] [Inhabited V]
 
-/-- a concrete table used by the non-vacuity examples: order 3, real `hs_hash32`, five puts
-(two of which collide and one overwrites) and a remove -/
+/-- a concrete history used by the non-vacuity examples: order 3, real `hs_hash32`; 22, 31, 57 all
+hash to bucket 7 (so they wrap around the end of the table into slots 0 and 1), 9 and 12 hash to
+bucket 0 (already taken: they are pushed to slots 2 and 1), one overwrite, one remove -/
 def demoOps : List (Op Nat Nat) :=
-  [.put 1 10, .put 9 20, .put 17 30, .put 1 11, .remove 9, .put 25 40]
+  [.put 22 1, .put 31 2, .put 57 3, .put 9 10, .put 22 11, .remove 31, .put 12 40]
 
-def demoTable : Table Nat Nat :=
-  (runTable (tableSize 3) (addRange 3) (hashU32 3) true (empty (tableSize 3)) demoOps).2
+/-- order 3: four keys of bucket 0 fill its whole probe window (`addRange 3 = 4`) -/
+def fullOps : List (Op Nat Nat) := [.put 9 1, .put 12 2, .put 28 3, .put 30 4]
+
+/-- order 7: the 32 keys of bucket 0 with the real `hs_hash32` (they occupy slots 0..31 and use up
+all 32 hop bits), then key 27 whose home is slot 32.  A further key of bucket 0 (4021) finds the
+empty slot 33, moves 27 from 32 to 33 and then gets stuck at slot 32 (replay of finding F25). -/
+def stuckOps : List (Op Nat Nat) :=
+  ([61, 190, 278, 654, 813, 846, 883, 991, 1037, 1208, 1239, 1451, 1478, 1565, 1815, 2038, 2041, 2141,
+    2149, 2270, 2335, 2412, 2446, 2630, 2833, 2865, 3103, 3178, 3369, 3460, 3582, 3979].map (fun k => Op.put k k))
+  ++ [.put 27 500]
+
+def tableOf (order : Nat) (clr : Bool) (ops : List (Op Nat Nat)) : Table Nat Nat :=
+  (runTable (tableSize order) (addRange order) (hashU32 order) clr (empty (tableSize order)) ops).2
+
+def demoTable : Table Nat Nat := tableOf 3 true demoOps
 
 /-- The empty table satisfies the invariant (with no ghost slots) and denotes the empty map. -/
 theorem wf_empty (order : Nat) (hash : K → Nat) :
@@ -124,6 +138,94 @@ theorem wf_run (order : Nat) (hash : K → Nat) (hhash : ∀ k, hash k < tableSi
     (wfs_empty (N := tableSize order) (hash := hash) (K := K) (V := V)).toWF abs_empty
   exact ⟨h2, fun hc => h3 hc (wfs_empty (hash := hash)).nostale⟩
 
+/-- **Why `put` refuses** (fixed code, tables without ghost slots): the key is absent, and either
+every slot of the probe window `[hash k, hash k + A)` holds a live entry, or the greedy
+displacement got stuck: the rearranged table has an empty slot at a distance `≥ W` inside the
+window, everything before it is live, and none of the `W - 1` preceding buckets owns an entry
+that could legally be moved into it. -/
+theorem full_reason (order : Nat) (hash : K → Nat) (hhash : ∀ k, hash k < tableSize order)
+    (t : Table K V) (wfs : WFS (tableSize order) hash t) (k : K) (v : V)
+    (hrc : (put (tableSize order) (addRange order) hash true t k v).rc = .full) :
+    (¬ ∃ v, Maps (tableSize order) t k v) ∧
+      (WindowOccupied (tableSize order) (addRange order) t (hash k) ∨
+        Stuck (tableSize order) (addRange order)
+          (put (tableSize order) (addRange order) hash true t k v).tab (hash k)) := by
+  obtain ⟨h1, h2, _⟩ := put_full_reason (tableSize_pos order) (addRange_le order) wfs (hhash k) v hrc
+  exact ⟨h1, h2⟩
+
+/-- When the add range does not exceed the hop range (`N ≤ 2·W`, i.e. `N ≤ 64`) no displacement
+is ever attempted: `put` refuses **iff** the key is absent and the window is fully occupied. -/
+theorem full_iff_small (order : Nat) (hsmall : addRange order ≤ W) (hash : K → Nat)
+    (hhash : ∀ k, hash k < tableSize order) (clr : Bool)
+    (t : Table K V) (wfs : WFS (tableSize order) hash t) (k : K) (v : V) :
+    (put (tableSize order) (addRange order) hash clr t k v).rc = .full ↔
+      (¬ ∃ v, Maps (tableSize order) t k v) ∧
+        WindowOccupied (tableSize order) (addRange order) t (hash k) :=
+  put_full_iff_small (tableSize_pos order) (addRange_le order) hsmall clr wfs (hhash k) v
+
+/-- the hypothesis of `full_iff_small` holds for every order up to 6 (tables of at most 64 slots) -/
+theorem small_orders (order : Nat) (ho : order ≤ 6) : addRange order ≤ W := by
+  rw [addRange_eq]
+  have hW : W = 2 ^ 5 := by decide
+  rw [hW]
+  exact Nat.pow_le_pow_right (by decide) (by omega)
+
+/-- **No capacity loss** (fixed code): a refused `put` leaves the number of empty slots
+unchanged (and the table without ghost slots).  False for the code before fix F25, see
+`no_capacity_loss_legacy_counterexample`. -/
+theorem no_capacity_loss (order : Nat) (hash : K → Nat) (hhash : ∀ k, hash k < tableSize order)
+    (t : Table K V) (wfs : WFS (tableSize order) hash t) (k : K) (v : V)
+    (hrc : (put (tableSize order) (addRange order) hash true t k v).rc = .full) :
+    emptyCount (tableSize order) (put (tableSize order) (addRange order) hash true t k v).tab =
+        emptyCount (tableSize order) t ∧
+      WFS (tableSize order) hash (put (tableSize order) (addRange order) hash true t k v).tab := by
+  obtain ⟨_, _, h3⟩ := put_full_reason (tableSize_pos order) (addRange_le order) wfs (hhash k) v hrc
+  obtain ⟨p1, p2, _⟩ := put_spec (tableSize_pos order) (addRange_le order) true wfs.toWF (hhash k) v
+  exact ⟨h3, { toWF := p1, nostale := p2 rfl wfs.nostale }⟩
+
+/-- The invariant with no ghost slots is kept by every operation of the fixed code. -/
+theorem wfs_step (order : Nat) (hash : K → Nat) (hhash : ∀ k, hash k < tableSize order)
+    (t : Table K V) (wfs : WFS (tableSize order) hash t) (op : Op K V) :
+    WFS (tableSize order) hash (stepTable (tableSize order) (addRange order) hash true t op).2 := by
+  cases op with
+  | get k => exact wfs
+  | remove k =>
+    obtain ⟨h1, h2, _⟩ := remove_spec_full (tableSize_pos order) wfs.toWF (hhash k)
+    exact { toWF := h1, nostale := h2 wfs.nostale }
+  | put k v =>
+    obtain ⟨h1, h2, _⟩ := put_spec (tableSize_pos order) (addRange_le order) true wfs.toWF (hhash k) v
+    have : (stepTable (tableSize order) (addRange order) hash true t (.put k v)).2 =
+        (put (tableSize order) (addRange order) hash true t k v).tab := by
+      simp only [stepTable]; split <;> rfl
+    rw [this]
+    exact { toWF := h1, nostale := h2 rfl wfs.nostale }
+
+/-- **The router's sweep** (`remove_routing_info_from_peer`, `remove_peer_from_routing_table`):
+iterating over all slots and removing the key found in each non-empty slot, on a table without
+ghost slots, (1) ends with a table that maps nothing, in which every key is the empty pattern and
+every bitmap is zero; (2) hands out exactly the values the table held; (3) removes exactly as
+many entries as there were occupied slots. -/
+theorem sweep_spec (order : Nat) (hash : K → Nat) (hhash : ∀ k, hash k < tableSize order)
+    (t : Table K V) (wfs : WFS (tableSize order) hash t) :
+    let s := sweep (tableSize order) hash t
+    (∀ k v, ¬ Maps (tableSize order) s.2 k v) ∧
+      (∀ j, j < tableSize order → (slot s.2 j).key = none ∧ (slot s.2 j).hop = 0) ∧
+      (∀ v, v ∈ s.1 ↔ ∃ k, Maps (tableSize order) t k v) ∧
+      s.1.length + emptyCount (tableSize order) t = tableSize order := by
+  have hN := tableSize_pos order
+  obtain ⟨h1, h2, h3, h4⟩ := sweepFrom_spec hN hhash (tableSize order) 0 t (by omega) wfs
+    (fun j hj => by omega)
+  refine ⟨no_maps_of_all_none h1.toWF hN h2, fun j hj => ⟨h2 j hj, ?_⟩, h3, h4⟩
+  apply BitVec.eq_of_getLsbD_eq
+  intro d hd
+  have hz : (0 : BitVec W).getLsbD d = false := by simp
+  rw [hz]
+  cases hb : (slot (sweep (tableSize order) hash t).2 j).hop.getLsbD d with
+  | false => rfl
+  | true =>
+    obtain ⟨_, k, hk, _⟩ := h1.bits j hj d hd hb
+    rw [h2 _ (Nat.mod_lt _ hN)] at hk; cases hk
+
 end
 
 /-! ## Non-vacuity: the hypotheses are satisfiable by concrete, non-trivial instances -/
@@ -136,5 +238,41 @@ example (order : Nat) (ho : order ≤ 32) : ∀ k, hashStr order k < tableSize o
 /-- `demoTable` (collisions, overwrite, removal) is well-formed -/
 example : WF (tableSize 3) (hashU32 3) demoTable :=
   (wf_run 3 (hashU32 3) (hashU32_lt 3 (by decide)) true demoOps).1
+
+/-- lookups in `demoTable`: overwritten value, wrapped entry, removed key -/
+example : get (tableSize 3) (hashU32 3) demoTable 22 = some 11 ∧
+    get (tableSize 3) (hashU32 3) demoTable 57 = some 3 ∧
+    get (tableSize 3) (hashU32 3) demoTable 31 = none := by decide
+
+/-- an accepted put (hypothesis of `put_ok`) -/
+example : (put (tableSize 3) (addRange 3) (hashU32 3) true demoTable 28 5).rc = .ok := by decide
+
+/-- a refused put because the window is occupied (hypothesis of `put_full`, `full_reason`,
+`no_capacity_loss`; order 3 also satisfies `small_orders`) -/
+example : (put (tableSize 3) (addRange 3) (hashU32 3) true (tableOf 3 true fullOps) 32 5).rc = .full := by
+  decide
+
+/-- the tables of the examples have no ghost slots (hypothesis `WFS`) -/
+example : WFS (tableSize 3) (hashU32 3) (tableOf 3 true fullOps) :=
+  let h := wf_run 3 (hashU32 3) (hashU32_lt 3 (by decide)) true fullOps
+  { toWF := h.1, nostale := h.2 rfl }
+
+/-- a refused put because the displacement got stuck (order 7, the F25 replay on the fixed code) -/
+example : (put (tableSize 7) (addRange 7) (hashU32 7) true (tableOf 7 true stuckOps) 4021 600).rc = .full := by
+  decide +kernel
+
+example : WFS (tableSize 7) (hashU32 7) (tableOf 7 true stuckOps) :=
+  let h := wf_run 7 (hashU32 7) (hashU32_lt 7 (by decide)) true stuckOps
+  { toWF := h.1, nostale := h.2 rfl }
+
+/-- **F25, code before the fix** (`clr = false`): the same refused put *loses* an empty slot — the
+slot vacated by the displacement keeps its key although no bitmap refers to it any more.
+(The full-strength `no_capacity_loss` above is proved for the committed, fixed code.) -/
+theorem no_capacity_loss_legacy_counterexample :
+    let t := tableOf 7 false stuckOps
+    let r := put (tableSize 7) (addRange 7) (hashU32 7) false t 4021 600
+    r.rc = .full ∧ emptyCount (tableSize 7) r.tab + 1 = emptyCount (tableSize 7) t ∧
+      (slot r.tab 32).key = some 27 ∧ (slot r.tab 33).key = some 27 := by
+  decide +kernel
 
 end Cjet.Props.C17
